@@ -78,6 +78,7 @@ type Interp struct {
 	constCache   map[*ssa.Const]Value
 	fmtLenient   bool
 	lastNow      *Term
+	rtypes       map[string]*Value
 	chanSeq      int
 	spec         *specCtx
 	noSpec       bool
@@ -117,7 +118,7 @@ type frame struct {
 func NewInterp(sh *Shared, cfg *Config, solver *Solver) *Interp {
 	in := &Interp{prog: sh.prog, tt: NewTermTable(), solver: solver, cfg: cfg, shared: sh,
 		globals: map[*ssa.Global]*Value{}, inited: map[*ssa.Package]int{}, fnInfos: map[*ssa.Function]*fnInfo{},
-		funcsSeen: map[*ssa.Function]int{}, stubsSeen: map[string]int{}, constCache: map[*ssa.Const]Value{}, simpleBlocks: map[*ssa.BasicBlock]bool{}}
+		funcsSeen: map[*ssa.Function]int{}, stubsSeen: map[string]int{}, constCache: map[*ssa.Const]Value{}, simpleBlocks: map[*ssa.BasicBlock]bool{}, rtypes: map[string]*Value{}}
 	in.zero64 = in.tt.BV(64, 0)
 	return in
 }
